@@ -14,9 +14,9 @@ from harness import core, tlc
 from props import misc_c38 as mc
 
 INVS = ["TypeOK", "RefOK", "Monotone", "FrameIsIndex", "Verdict"]
-QUICK = dict(ValChars={"1", "a", "."}, Digits={"1"}, MaxLen=5, MaxSpaces=1, AllParams=False)
-THOROUGH = dict(ValChars={"0", "1", "a", "."}, Digits={"0", "1"}, MaxLen=6, MaxSpaces=1, AllParams=False)
-SIM = dict(ValChars={"0", "1", "2", "a", "b", "."}, Digits={"0", "1", "2"}, MaxLen=12, MaxSpaces=3, AllParams=True)
+QUICK = dict(ValChars={"1", "a", "."}, Digits={"1"}, MaxLen=5, MaxSpaces=1, SpaceMaxLen=4, AllParams=False)
+THOROUGH = dict(ValChars={"0", "1", "a", "."}, Digits={"0", "1"}, MaxLen=6, MaxSpaces=1, SpaceMaxLen=6, AllParams=False)
+SIM = dict(ValChars={"0", "1", "2", "a", "b", "."}, Digits={"0", "1", "2"}, MaxLen=12, MaxSpaces=3, SpaceMaxLen=12, AllParams=False)
 
 # (unit, timespan given as timedelta, falsy lookup values, error object given, HistoricalScheduler instead of TestScheduler)
 VARIANTS = [(1.0, False, False, True, False), (0.5, True, True, False, True), (2.0, False, True, True, False)]
@@ -46,7 +46,7 @@ def run(tier: str) -> int:
     ck.add_tlc(res, "exhaustive " + json.dumps({k: sorted(v) if isinstance(v, set) else v for k, v in consts.items()}))
     lines = list(res.lines)
     ck.exhaustive = True
-    n_sim = 2000 if tier == "quick" else 150000
+    n_sim = 20000   # walks; every complete prefix of a walk is exported, so this is ~10^5 strings
     if tier != "quick":
         sim = tlc.run("Marbles", tlc.cfg_text(SIM, invariants=INVS + ["Export"]), workers=1, timeout=2400, simulate=f"num={n_sim}",
                       depth=20, seed=ck.seed + 5, xmx="2g", allow_violation=False)
